@@ -348,9 +348,10 @@ def rule_failures(ctx):
     effs, raised = out[0]
     dn = [node_of(e) for e in effs if e[0] == "DOWN"]
     ups = [e for e in effs if e[0] == "UP"]
-    ok = raised is None and len(dn) == 1 and not ups and tagname(dn[0]) == "receipt" and attr(dn[0], "id") == MID and attr(dn[0], "to") == MFROM
+    ok = raised is None and len(dn) == 1 and not ups and tagname(dn[0]) == "receipt" and attr(dn[0], "id") == MID and attr(dn[0], "to") == MFROM \
+        and attr(dn[0], "type") in (None, C_NONE) and child(dn[0], "retry") is None      # a plain delivery receipt, not a retry request
     okp = ok and attr(dn[0], "participant") == MPART
-    ctx.check("C03.dup", bool(ok and okp), w, "except DuplicateMessageException", "a message the session has already decrypted must be answered with exactly one receipt naming its id, sender and participant, and not be delivered again (receipts %d, deliveries %d)" % (len(dn), len(ups)),
+    ctx.check("C03.dup", bool(ok and okp), w, "except DuplicateMessageException", "a message the session has already decrypted must be answered with exactly one plain delivery receipt naming its id, sender and participant - not a retry request - and not be delivered again (receipts %d, deliveries %d, receipt type %s)" % (len(dn), len(ups), show(attr(dn[0], "type")) if dn and dn[0] is not None and attr(dn[0], "type") is not None else None),
               "one receipt (id, to, participant), no delivery")
     # retry on invalid key id / invalid message, counter per id, reset on success
     for exc in ("InvalidKeyIdException", "InvalidMessageException"):
